@@ -2,6 +2,8 @@ import B3.Io.Model
 
 /-! Helper lemmas for `B3.Io.Props` (C11). -/
 
+set_option linter.unusedSimpArgs false
+
 namespace B3.Io
 
 /-! ### unfolding equations of the read loop -/
@@ -178,13 +180,13 @@ end
 
 @[simp] theorem liveEvents_nil : liveEvents [] = [] := rfl
 @[simp] theorem liveEvents_data (bs) (r) : liveEvents (.data bs :: r) = .data bs :: liveEvents r := by
-  simp [liveEvents, ReadEvent.continues]
+  simp [liveEvents, List.takeWhile_cons, ReadEvent.continues]
 @[simp] theorem liveEvents_interrupted (r) : liveEvents (.interrupted :: r) = .interrupted :: liveEvents r := by
-  simp [liveEvents, ReadEvent.continues]
+  simp [liveEvents, List.takeWhile_cons, ReadEvent.continues]
 @[simp] theorem liveEvents_fail (k) (r) : liveEvents (.fail k :: r) = [] := by
-  simp [liveEvents, ReadEvent.continues]
+  simp [liveEvents, List.takeWhile_cons, ReadEvent.continues]
 @[simp] theorem liveEvents_eof (r) : liveEvents (.eof :: r) = [] := by
-  simp [liveEvents, ReadEvent.continues]
+  simp [liveEvents, List.takeWhile_cons, ReadEvent.continues]
 
 @[simp] theorem dataBefore_nil : dataBefore [] = [] := rfl
 @[simp] theorem dataBefore_data (bs) (r) : dataBefore (.data bs :: r) = bs ++ dataBefore r := by
@@ -204,23 +206,23 @@ end
 
 @[simp] theorem stopper_nil : stopper [] = none := rfl
 @[simp] theorem stopper_data (bs) (r) : stopper (.data bs :: r) = stopper r := by
-  simp [stopper, ReadEvent.continues]
+  simp [stopper, List.dropWhile_cons, ReadEvent.continues]
 @[simp] theorem stopper_interrupted (r) : stopper (.interrupted :: r) = stopper r := by
-  simp [stopper, ReadEvent.continues]
+  simp [stopper, List.dropWhile_cons, ReadEvent.continues]
 @[simp] theorem stopper_fail (k) (r) : stopper (.fail k :: r) = some (.fail k) := by
-  simp [stopper, ReadEvent.continues]
+  simp [stopper, List.dropWhile_cons, ReadEvent.continues]
 @[simp] theorem stopper_eof (r) : stopper (.eof :: r) = some .eof := by
-  simp [stopper, ReadEvent.continues]
+  simp [stopper, List.dropWhile_cons, ReadEvent.continues]
 
 @[simp] theorem remaining_nil : remaining [] = [] := rfl
 @[simp] theorem remaining_data (bs) (r) : remaining (.data bs :: r) = remaining r := by
-  simp [remaining, ReadEvent.continues]
+  simp [remaining, List.dropWhile_cons, ReadEvent.continues]
 @[simp] theorem remaining_interrupted (r) : remaining (.interrupted :: r) = remaining r := by
-  simp [remaining, ReadEvent.continues]
+  simp [remaining, List.dropWhile_cons, ReadEvent.continues]
 @[simp] theorem remaining_fail (k) (r) : remaining (.fail k :: r) = r := by
-  simp [remaining, ReadEvent.continues]
+  simp [remaining, List.dropWhile_cons, ReadEvent.continues]
 @[simp] theorem remaining_eof (r) : remaining (.eof :: r) = r := by
-  simp [remaining, ReadEvent.continues]
+  simp [remaining, List.dropWhile_cons, ReadEvent.continues]
 
 /-- `outcome` shifted by the running total -/
 def outcomeFrom (t : Nat) (evs : List ReadEvent) : Except String Nat :=
@@ -420,5 +422,30 @@ theorem foldl_upd_flatten
   | cons c cs ih => intro h; simp [ih, hcat]
 
 end
+
+/-! ### witness objects for the non-vacuity examples in `B3.Io.Props` -/
+
+/-- a hasher that records its `update` calls -/
+def recUpd (h : List (List UInt8)) (c : List UInt8) : List (List UInt8) := h ++ [c]
+
+/-- a hasher that concatenates its input: satisfies the C02 hypotheses -/
+def catUpd (h : List UInt8) (c : List UInt8) : List UInt8 := h ++ c
+
+/-- the observable behaviour of a regular file of length `L` on which mmap works -/
+def regularEnv (L : Nat) : FileEnv :=
+  { seekEnd := if L < SEEK_OFFSET then .err else .ok (L - SEEK_OFFSET), mapOk := fun _ => true }
+
+theorem regularEnv_regular (L : Nat) : RegularFile (regularEnv L) L := ⟨rfl, rfl, rfl⟩
+
+/-- a regular file with the given contents, read back as one `Interrupted`, the rest of the file, end of file -/
+def regularFile (contents : List UInt8) : OpenFile :=
+  { env := regularEnv contents.length
+    contents := contents
+    readerAt := fun c => [.interrupted, .data (contents.drop c), .eof] }
+
+theorem regularFile_faithful (contents : List UInt8) : FaithfulReads (regularFile contents) := by
+  constructor
+  · intro c; simp [regularFile]
+  · intro c; rw [failsFirst_iff]; simp [regularFile, outcome]
 
 end B3.Io
